@@ -2176,12 +2176,21 @@ class ItemSpaceImpl(DynamicSpaceImpl):
         else:
             raise ValueError("invalid name")
 
-        DynamicSpaceImpl.__init__(
-            self, parent, name, parent._named_itemspaces, base, refs, arguments, cache
-        )
-        self._bind_args(self.arguments)
-        self._init_child_spaces(self)
-        self._init_dynbaserefs()
+        try:
+            DynamicSpaceImpl.__init__(
+                self, parent, name, parent._named_itemspaces, base, refs, arguments, cache
+            )
+            self._bind_args(self.arguments)
+            self._init_child_spaces(self)
+            self._init_dynbaserefs()
+        except:
+            # Leave nothing of the half-built item space behind
+            if parent._named_itemspaces.get(name) is self:
+                self.on_delete()
+                parent.named_itemspaces.del_item(name)
+            elif self in base._dynamic_subs:
+                base._dynamic_subs.remove(self)
+            raise
 
     def _init_root(self, parent):
         self.rootspace = self
